@@ -156,13 +156,9 @@ def _handle_ConnectionUp (event):
 def _handle_LinkEvent (event):
   # When links change, update spanning tree
 
-  (dp1,p1),(dp2,p2) = event.link.end
-  if _prev[dp1][p1] is False:
-    if _prev[dp2][p2] is False:
-      # We're disabling this link; who cares if it's up or down?
-      #log.debug("Ignoring link status for %s", event.link)
-      return
-
+  # Any change can matter, even on a link we currently block: the reverse
+  # direction of a one-way link being discovered makes it a tree candidate,
+  # and a vanished link turns its ports into edge ports again.
   _update_tree()
 
 
@@ -176,6 +172,11 @@ def _update_tree (force_dpid = None):
 
   # Get a spanning tree
   tree = _calc_spanning_tree()
+  # Visit every connected switch, not only those with tree links: ports of
+  # one-way links must stop flooding, and ports whose links are gone are
+  # edge ports again and must flood.
+  for con in core.openflow.connections:
+    tree[con.dpid]
   log.debug("Spanning tree updated")
 
   # Connections born before this time are old enough that a complete
